@@ -352,12 +352,13 @@ func (s *Server) HandleReadWriter(
 func (s *Server) HandleReader(ctx context.Context, reader io.Reader) ([]byte, http.Header, error) {
 	var errorRecoverBuffer windowBuffer
 	bufferedReader := bufio.NewReaderSize(io.TeeReader(reader, &errorRecoverBuffer), bufferSize)
-	requestIsBatch := isBatch(bufferedReader)
+	leadingSpace, requestIsBatch := isBatch(bufferedReader)
 
 	var resp *response
 	var header http.Header
 
-	dec := json.NewDecoder(bufferedReader)
+	// the decoder still sees the whole stream, so error offsets stay absolute
+	dec := json.NewDecoder(io.MultiReader(bytes.NewReader(leadingSpace), bufferedReader))
 	dec.UseNumber()
 
 	if !requestIsBatch {
@@ -472,17 +473,24 @@ func (s *Server) handleBatchRequest(ctx context.Context, batchReq []json.RawMess
 	return result, finalHeaders, err // todo: fix batch request aggregate header
 }
 
-func isBatch(reader *bufio.Reader) bool {
-	for n := 1; ; n++ {
-		buf, err := reader.Peek(n)
+// isBatch consumes the insignificant whitespace in front of the request and reports whether the
+// first significant byte opens an array. The whitespace is consumed rather than peeked over:
+// Peek cannot look beyond the reader's buffer, so a batch preceded by more whitespace than the
+// buffer holds used to be taken for a single request.
+func isBatch(reader *bufio.Reader) (leadingSpace []byte, batch bool) {
+	for {
+		buf, err := reader.Peek(1)
 		if err != nil {
-			return false
+			return leadingSpace, false
 		}
-		switch buf[n-1] {
+		switch buf[0] {
 		case ' ', '\t', '\r', '\n':
-			continue
+			leadingSpace = append(leadingSpace, buf[0])
+			if _, err := reader.Discard(1); err != nil {
+				return leadingSpace, false
+			}
 		default:
-			return buf[n-1] == '['
+			return leadingSpace, buf[0] == '['
 		}
 	}
 }
